@@ -43,6 +43,14 @@ def polygon_case(rng_seed, n, kind, orient, shift, tx, ty, sc):
     return pts[s:] + pts[:s]
 
 
+def observe_cell(cell):
+    vs = list(cell.vertices)
+    return {"area": float(cell.get_area()), "sign": int(cell.get_area_sign()),
+            "next": [vs.index(cell.get_next_vertex(v)) for v in vs],
+            "prev": [vs.index(cell.get_previous_vertex(v)) for v in vs],
+            "perimeter": float(cell.get_perimeter())}
+
+
 def observe(pts):
     cell, vs = make_cell(pts)
     obs = {"area": float(cell.get_area()), "sign": int(cell.get_area_sign()),
@@ -79,6 +87,21 @@ def oracle(ck, pts, obs, case):
     rot = observe(pts[k:] + pts[:k])
     if abs(rot["area"] - obs["area"]) > REL * scale2 or abs(rot["perimeter"] - obs["perimeter"]) > REL * per * n:
         ck.fail("cyclic shift invariance", f"shift {k}: area {rot['area']} vs {obs['area']}, perimeter {rot['perimeter']} vs {obs['perimeter']}", case)
+    # the same laws on ONE cell object whose stored cycle is replaced (as the repository's own tests do): every quantity follows
+    # the cycle that is stored now — reversed, shifted, reversed back
+    cell, vs = make_cell(pts)
+    observe_cell(cell)
+    for label, newpts in (("reversed in place", pts[::-1]), ("shifted in place", (pts[::-1])[k:] + (pts[::-1])[:k]), ("restored", pts)):
+        order = {p: i for i, p in enumerate(pts)}
+        cell.vertices = [vs[order[p]] for p in newpts] if len(order) == n else cell.vertices
+        if len(order) != n:
+            break
+        got = observe_cell(cell)
+        fresh = observe(newpts)
+        if any(got[key] != fresh[key] for key in ("area", "sign", "next", "prev", "perimeter")):
+            ck.fail("area, sign, perimeter and navigation follow the stored cycle (cycle " + label + ")",
+                    f"same cell object: sign {got['sign']} next[:3] {got['next'][:3]}; fresh cell with that cycle: sign {fresh['sign']} next[:3] {fresh['next'][:3]}", case)
+            break
     dx, dy = 3.25, -7.5
     tr = observe([(x + dx, y + dy) for x, y in pts])
     big = max(scale2, (abs(dx) + abs(dy)) ** 2 * n)
@@ -133,7 +156,10 @@ def outline_area(bm):
 
 def tissue_case(ck, case):
     rng = np.random.default_rng(case["seed"])
-    topo = gen.voronoi_topo(rng, case["sites"], case["kind"])
+    if case["kind"] in ("square", "brick"):
+        topo = gen.lattice_topo(case["kind"], case.get("nx", 4), case.get("ny", 3))
+    else:
+        topo = gen.voronoi_topo(rng, case["sites"], case["kind"])
     if topo is None or topo.ncells() < 2:
         ck.count("tissue_rejected")
         return None
@@ -141,7 +167,8 @@ def tissue_case(ck, case):
     if case.get("subset"):
         sub = gen.connected_subsets(topo, rng, max(2, int(topo.ncells() * case["subset"])))
     rev = [c for c in range(topo.ncells()) if rng.random() < case.get("p_rev", 0.0)]
-    bm = gen.build_mesh(topo, sub, k=case["k"], rng=rng, param_mode="random", reverse_cells=rev,
+    shifts = {c: int(rng.integers(0, 40)) for c in range(topo.ncells())} if case.get("shifts") else None
+    bm = gen.build_mesh(topo, sub, k=case["k"], rng=rng, param_mode="random", reverse_cells=rev, shifts=shifts,
                         vmap=(lambda i: 7 * i + 3), cmap=(lambda i: 5 * i + 11), center_method="mean")
     return topo, sub, bm
 
@@ -229,7 +256,13 @@ def run(ck):
             cases.append({"type": "tissue", "seed": int(ck.rng.integers(1 << 30)), "sites": int(ck.rng.integers(12, 45)),
                           "kind": ["random", "jitter", "hex"][i % 3], "k": int(ck.rng.integers(0, 6)),
                           "subset": None if i % 2 == 0 else float(ck.rng.uniform(0.3, 0.8)),
-                          "p_rev": [0.0, 0.5, 1.0][i % 3], "first": i == 0})
+                          "p_rev": [0.0, 0.5, 1.0][i % 3], "first": i == 0, "shifts": bool(i % 2)})
+        for i in range(6 if ck.tier == "quick" else 40):
+            # junctions of four cells (neighbours that share a single vertex): square lattices, Voronoi tissues with concyclic sites
+            cases.append({"type": "tissue", "seed": int(ck.rng.integers(1 << 30)), "sites": int(ck.rng.integers(20, 45)),
+                          "kind": ["square", "quad", "brick"][i % 3], "nx": int(ck.rng.integers(2, 6)), "ny": int(ck.rng.integers(2, 5)),
+                          "k": [0, 0, 2][i % 3] if i % 3 != 1 else int(ck.rng.integers(0, 3)), "subset": None,
+                          "p_rev": [0.0, 0.5][i % 2], "shifts": True})
     def one(case):
         if case["type"] == "polygon":
             pts = polygon_case(case["seed"], case["n"], case["kind"], case["orient"], case["shift"], case["tx"], case["ty"], case["sc"])
